@@ -184,6 +184,12 @@ pub(crate) fn ascii_to_alphanumeric(c: u8) -> usize {
     }
 }
 
+#[cfg(feature = "verif-hooks")]
+#[doc(hidden)]
+pub fn verif_is_qr_alphanumeric(c: u8) -> bool {
+    is_qr_alphanumeric(c)
+}
+
 /// Checks if character c is alphanumeric: 0-9, A-Z, $%*./:+-?.= [space] \
 /// referring to 7.1 of the spec.
 const fn is_qr_alphanumeric(c: u8) -> bool {
